@@ -322,6 +322,9 @@ static int make_packets(Choice& c, Spec& ds, std::vector<Packet>& pk, std::vecto
 int vp_case(Choice& c, Report& rep) {
   int exp = c.irange(0, 2);
   int kind = c.irange(0, NKINDS - 1);
+  // development aid (never set by ./check): restrict the experiment / object kind to focus a search
+  if (const char* e = getenv("VERIF_C12_EXP")) exp = atoi(e) % 3;
+  if (const char* e = getenv("VERIF_C12_KINDS")) { int n = (int)strlen(e); if (n > 0) kind = e[kind % n] - '0'; if (kind < 0 || kind >= NKINDS) kind = 0; }
   int capsel = c.irange(0, 7);
   opus_verif_arch_cap = capsel <= 4 ? capsel : 255;
   Spec s = gen_spec(c, kind);
@@ -358,7 +361,7 @@ int vp_case(Choice& c, Report& rep) {
         R.alloc(size, (patA + 2) % 4, pseed + 7);
         memcpy(R.p(), A.p(), size);
         memset(A.p(), 0xDD, size); delete A.mem; A.mem = nullptr;
-        X = R.p(); rep.label("cloned");
+        X = R.p(); rep.label("cloned"); rep.note("%d: memcpy clone, original destroyed", i);
       } else if (exp == X_RESET) {
         if (is_enc(kind) && f2_fec_seen && rep.exclude("F2")) {
           // F2 (a): keep FEC off after the reset when it was active before it (stale LBRR hysteresis)
@@ -369,7 +372,12 @@ int vp_case(Choice& c, Report& rep) {
         B.alloc(size, patB, pseed + 1); Spec s2 = s; r = obj_init(s2, B.p());
         if (r != OPUS_OK) return rep.fail("c12:init", "%s fresh init returned %d", KN, r);
         if (apply_track(s, B.p(), track, rep)) return 1;
-        Y = B.p(); first_after_reset = true; rep.label("reset-done");
+        if (getenv("VERIF_C12_DUMP")) {   // development aid: where do the reset object and the fresh one differ?
+          const unsigned char* a = (const unsigned char*)X; const unsigned char* b = (const unsigned char*)B.p();
+          for (size_t k = 0; k < size; ) { if (a[k] == b[k]) { k++; continue; } size_t e = k; while (e < size && (a[e] != b[e] || (e + 4 < size && memcmp(a + e, b + e, 4)))) e++;
+            fprintf(stderr, "state differs at [%zu,%zu): reset %02x%02x%02x%02x fresh %02x%02x%02x%02x\n", k, e, a[k], a[k+1], a[k+2], a[k+3], b[k], b[k+1], b[k+2], b[k+3]); k = e; }
+        }
+        Y = B.p(); first_after_reset = true; rep.label("reset-done"); rep.note("%d: RESET_STATE; fresh twin with the same settings", i);
       }
     }
     bool paired = Y != nullptr;
@@ -379,6 +387,7 @@ int vp_case(Choice& c, Report& rep) {
       fp = mix(fp, st.type * 1000 + st.rid * 37 + (uint32_t)st.val + st.d * 7 + st.fam);
       if (st.type == 1) {
         if (exp == X_RESET && st.rid == S_FEC && i >= split && f2_fec_seen && rep.exclude("F2")) st.val = 0;
+        rep.note("%d: SET_%s(%d)", i, SET_NAME[st.rid], st.val);
         if (apply_step_ctl(s, X, st, rep)) return 1;
         if (paired && apply_step_ctl(s, Y, st, rep)) return 1;
         track.set[st.rid] = true; track.val[st.rid] = st.val;
@@ -401,6 +410,7 @@ int vp_case(Choice& c, Report& rep) {
       run_encode(s, X, st, pos, oa); rep.count();
       if (paired) { noise(pseed * 131 + i); scribble_stack(0xEE); run_encode(s, Y, st, pos, ob); rep.count(); }
       pos += cu::frame_samples(s.Fs, st.d);
+      rep.note("%d: encode %d x2.5ms %s amp %.2f api %d buf %d -> %d toc 0x%02x", i, cu::DUR400[st.d], sig::FAMILY_NAME[st.fam], st.amp, st.api, st.maxb, oa.ret, oa.ret > 0 ? oa.bytes[0] : 0);
       if (oa.ret > 0) enc_tocs.push_back(oa.bytes[0]);
       if (oa.ret < 0 && oa.ret != OPUS_BUFFER_TOO_SMALL) return rep.fail("c12:encode-status", "%s encode returned %d (buffer %d, duration index %d)", KN, oa.ret, st.maxb, st.d);
       what = "encode";
@@ -410,6 +420,7 @@ int vp_case(Choice& c, Report& rep) {
       if (t >= 8) {
         Step st; st.type = 1; st.rid = D_GAIN + c.irange(0, 2); if (st.rid == D_COMPLEXITY && kind != K_DEC) st.rid = D_GAIN;
         st.val = legal_value(st.rid, c, s); fp = mix(fp, st.rid * 100003 + (uint32_t)st.val);
+        rep.note("%d: SET_%s(%d)", i, SET_NAME[st.rid], st.val);
         if (apply_step_ctl(s, X, st, rep)) return 1;
         if (paired && apply_step_ctl(s, Y, st, rep)) return 1;
         track.set[st.rid] = true; track.val[st.rid] = st.val;
@@ -418,7 +429,7 @@ int vp_case(Choice& c, Report& rep) {
       int api = c.irange(0, 1);
       if (pkidx + 1 >= (int)pk.size()) break;
       const Packet& p = pk[pkidx];
-      bool lost = t == 6, fec = t == 7;
+      bool lost = t == 6, fec = t == 7 && pk[pkidx + 1].samples == p.samples;   // FEC recovery is defined for a lost packet of the next packet's duration
       if (lost) what = "lost packet"; else if (fec) what = "FEC of next packet";
       if (fec) {
         // packet pkidx is lost; recover it from packet pkidx+1, then decode pkidx+1 normally in the next step
@@ -429,6 +440,7 @@ int vp_case(Choice& c, Report& rep) {
         scribble_stack(0x11); run_decode(s, X, p.bytes, lost, 0, p.samples, api, oa); rep.count();
         if (paired) { noise(pseed * 131 + i); scribble_stack(0xEE); run_decode(s, Y, p.bytes, lost, 0, p.samples, api, ob); rep.count(); }
       }
+      rep.note("%d: decode %s (packet %d, toc 0x%02x, %d bytes, api %d) -> %d", i, what, pkidx, p.bytes[0], (int)p.bytes.size(), api, oa.ret);
       pkidx++;
       if (oa.ret < 0) return rep.fail("c12:decode-status", "%s decode (%s) returned %d", KN, what, oa.ret);
       if (lost) rep.label("plc-step"); if (fec) rep.label("fec-step");
